@@ -1077,6 +1077,18 @@ def _invalid_inputs():
                         ("member", {"what": name, "where": where})))
     for name in ("Sphere", "LayeredSphere", "layered-Sphere"):
         out.append(("member-ok:" + name, ("member-ok", {"what": name})))
+    # (appended: the case index is part of the case)
+    for name, c in (("c=column(3,1)", np.array([[1.0], [2.0], [3.0]])),
+                    ("c=array(3,2)", np.ones((3, 2))),
+                    ("c=0-d-array", np.array(1.0)),
+                    ("c=[[1,2,3]]", [[1.0, 2.0, 3.0]])):
+        out.append(("sphere:" + name, ("sphere", {"center": c})))
+    for name, kw in (("c=(1,2)", {"center": (1, 2)}),
+                     ("c=7.0", {"center": 7.0}),
+                     ("c=(1,2,3,4)", {"center": (1, 2, 3, 4)}),
+                     ("t=[-0.1,0.2]", {"t": [-0.1, 0.2]}),
+                     ("t=[0.3,-0.2]", {"t": [0.3, -0.2]})):
+        out.append(("layered:" + name, ("layered", kw)))
     return out
 
 
@@ -1129,6 +1141,13 @@ def _run_invalid(case, ck):
         expect_reject("reject-negative-radius" if "r" in kw
                       else "reject-malformed-centre",
                       lambda: hs.Sphere(**args), "Sphere(%r)" % (kw,))
+    elif kind == "layered":
+        args = {"n": [1.5, 1.6], "t": [0.3, 0.2], "center": (0, 0, 0)}
+        args.update(kw)
+        expect_reject("reject-negative-radius" if "t" in kw
+                      else "reject-malformed-centre",
+                      lambda: hs.LayeredSphere(**args),
+                      "LayeredSphere(%r)" % (kw,))
     elif kind == "ellipsoid":
         args = {"n": 1.5, "r": (1, 2, 3), "center": (0, 0, 0)}
         args.update(kw)
